@@ -227,6 +227,9 @@ def model_call(m: ModelStorage, op: list[Any], rs: Resolver, mine_h: int | None)
 CREATES = {"cs": "s", "ct": "t", "ctt": "t"}
 
 
+LAST_RELEASES: list[int] = []  # yield points right after a lock release, of the last unpreempted run
+
+
 def execute(case: dict[str, Any], preempt: dict[int, int], tmpdir: str, ctx: Ctx | None) -> tuple[int, bool]:
     import optuna
     from optuna.study import StudyDirection
@@ -238,7 +241,7 @@ def execute(case: dict[str, Any], preempt: dict[int, int], tmpdir: str, ctx: Ctx
     mixed = layout.startswith("mixed:")
     env_layout = "threads:" + layout.split(":")[1] if mixed else layout
     nw = len(case["workers"])
-    sched = Scheduler(preempt=preempt, trace_files=conc.target_files(env_layout))
+    sched = Scheduler(preempt=preempt, trace_files=conc.target_files(env_layout), record=not preempt)
     with conc.Env(env_layout, tmpdir, sched, nw) as env:
         s0 = env.setup
         m = ModelStorage()
@@ -298,6 +301,8 @@ def execute(case: dict[str, Any], preempt: dict[int, int], tmpdir: str, ctx: Ctx
                 ctx.event("inconclusive:" + type(e).__name__)
             return sched.steps, False
         sw = f"layout={layout} schedule {preempt} switches {sched.switches}"
+        if not preempt:
+            LAST_RELEASES[:] = [st for st, _, tag in sched.trace if tag == "lock.release"]
         for n_, r in res.items():
             if r[0] != "ok":
                 raise Violation("worker-raised", f"{sw}: {n_}: {r[1]!r}", None)
@@ -483,6 +488,16 @@ def run_scenario(case: dict[str, Any], ctx: Ctx) -> None:
         one(p)
     for sched_ in case["multi"]:
         one({min(int(f * n), n - 1): c for f, c in sched_})
+    if lay in ("threads:inmemory", "threads:journal_redis") and case.get("pairs"):
+        # two preemptions: the first right after a lock release (the worker has left its critical
+        # section but not yet used what it computed there), the second anywhere later
+        rel = list(LAST_RELEASES)[:10]
+        total = sum(n - r for r in rel)
+        stride = max(1, -(-total // (150 if ctx.tier == "quick" else 100000)))
+        for r in rel:
+            for s2 in range(r + 1 + (r % stride), n, stride):
+                one({r: 0, s2: 0})
+        ctx.event("scenarios_with_release_x_anywhere_pairs")
     ctx.event("scenarios")
     ctx.event("yield_points", n)
 
@@ -498,6 +513,8 @@ CLASSIC = [
     ("write/finish/read", ["running"], [[["ua", 0, "a", 1, True], ["iv", 0, 0, 1.0]], [["ss", 0, "COMPLETE", 1]], [["gt", 0], ["gat", 0]]]),
     ("create+write/read", ["running"], [[["ct", 0], ["sp", "mine", "x", 0.5], ["ss", "mine", "COMPLETE", 2]], [["gat", 0], ["gn", 0], ["gat", 0]]]),
     ("attr/attr same key", ["running"], [[["ua", 0, "a", 1, True]], [["ua", 0, "a", 2, True]], [["gt", 0]]]),
+    ("create, create (snapshot) / writes", ["running"], [[["ct", 0], ["ct", 0]], [["ua", 0, "a", 1, True], ["iv", 0, 0, 1.0], ["ua", 0, "b", 2, True]]]),
+    ("finish A / finish B (incrementally kept best trial)", ["complete", "running", "running"], [[["ss", 1, "COMPLETE", -3]], [["ss", 2, "COMPLETE", -1]], [["gat", 0]]]),
     ("finish, refresh / single read", ["running"], [[["ss", 0, "COMPLETE", 1], ["gat", 0]], [["gt", 0], ["gt", 0]]]),
     ("refresh / create / single read", ["running", "running"], [[["gat", 0], ["gat", 0]], [["ct", 0], ["gt", "mine"], ["ss", "mine", "FAIL", 0]]]),
 ]
@@ -508,11 +525,11 @@ def enum_classic(ctx: Ctx, tier: str, shard: int, nshards: int) -> None:
     for i, (lay, name, pre, workers) in enumerate(jobs):
         if i % nshards != shard:
             continue
-        case = {"layout": lay, "pre": pre, "workers": workers, "multi": [], "salt": i}
+        case = {"layout": lay, "pre": pre, "workers": workers, "multi": [], "salt": i, "pairs": True}
         ctx.sub = "classic"
         run_scenario(case, ctx)
         ctx.event("classic:" + name)
-    ctx.exhaustive_parts.append("the ten classic same-object races on all eleven layouts: every single-preemption schedule on the in-memory / fakeredis layouts (quick tier: 50 / 24 sampled switch points on journal-file / SQLite layouts; thorough tier: all)")
+    ctx.exhaustive_parts.append("the twelve classic races on all eleven layouts: every single-preemption schedule on the in-memory / fakeredis layouts (quick tier: 50 / 24 sampled switch points on journal-file / SQLite layouts; thorough tier: all)")
 
 
 CHECKS = [
